@@ -531,7 +531,8 @@ def _run(case, root):
         kw["target_number"] = ("Tick", case["iters"])
     del _ROWS[:]
     out = {}
-    with injected_randbelow(raw=case["raw"]) as rec:
+    raw = case["raw"] or [0]
+    with injected_randbelow(chooser=lambda n, idx: raw[idx % len(raw)] % n) as rec:   # reproducible, never runs dry
         try:
             generate_data(recipe_path, output_format="harness.c17.CaptureStream", **kw)
         except BaseException as e:
